@@ -1244,6 +1244,18 @@ impl<F: FromUniformBytes<64> + Ord> MockProver<F> {
         &self.selectors
     }
 
+    /// Mutable access to the advice table (verification hook).
+    #[cfg(midnight_zk_verif)]
+    pub fn advice_mut(&mut self) -> &mut Vec<Vec<CellValue<F>>> {
+        &mut self.advice
+    }
+
+    /// Mutable access to the instance table (verification hook).
+    #[cfg(midnight_zk_verif)]
+    pub fn instance_mut(&mut self) -> &mut Vec<Vec<InstanceValue<F>>> {
+        &mut self.instance
+    }
+
     /// Returns the list of Instance Columns used within a MockProver instance
     /// and the associated values contained on each Cell.
     pub fn instance(&self) -> &Vec<Vec<InstanceValue<F>>> {
